@@ -40,7 +40,7 @@ ASSUMPTIONS = ['F = 0.05 sd is an ABSOLUTE allowance (the one place an absolute 
                'cross-terms ignored by the bias model and the neglected terms of C04 leave a first-order, scale-independent remainder (calibration: <= 0.022 sd over 600 ladders) in '
                'this workload domain (time_step <= 0.5 s, IMU step 12.5 ms, horizon <= 40 s)']
 REQUIRED_OBS = ['transparent_with_small_capacity', 'sd_steps_decided', 'zero_data_sd_compared', 'transparent_runs', 'transparent_with_outside_samples', 'transparent_with_default_measurements', 'ladder_runs', 'ladders_decided',
-                'rerun_checks', 'scale_misal_ladders', 'two_d_ladders']
+                'rerun_checks', 'scale_misal_ladders', 'two_d_ladders', 'ladders_with_two_epochs_in_one_imu_interval', 'ladders_with_roll_through_180']
 REQUIRED_CLASSES = {'all': ['transparent', 'ladder', 'rerun']}
 F_ALLOW = 0.05
 TERR = ['north', 'east', 'down', 'VN', 'VE', 'VD', 'roll', 'pitch', 'heading']
@@ -190,7 +190,12 @@ def ladder_config(seed):
     vm = np.array([np.cos(hd_), np.sin(hd_), 0.0]) * rng.uniform(2.0, 3.5) * np.hypot(va[0], va[1]) + np.array([0, 0, rng.uniform(-0.2, 0.2) if wa else 0.0])
     period = float(rng.uniform(15, 30))
     sensors = [c for c in ('Position', 'NedVelocity', 'BodyVelocity') if rng.random() < 0.6] or ['Position']
-    return dict(wa=wa, sm=sm, T=T, ts=ts, lla0=lla0, vm=vm.tolist(), va=va.tolist(), period=period, sensors=sensors,
+    crng = np.random.Generator(np.random.PCG64(seed + 5))
+    clustered = bool(crng.random() < 0.4)
+    if clustered and len(sensors) < 2:
+        sensors = sensors + [c for c in ('NedVelocity', 'Position') if c not in sensors][:1]
+    inverted = bool(crng.random() < 0.3)
+    return dict(clustered=clustered, inverted=inverted, wa=wa, sm=sm, T=T, ts=ts, lla0=lla0, vm=vm.tolist(), va=va.tolist(), period=period, sensors=sensors,
                 e_pos=(rng.uniform(-1, 1, 3)).tolist(), e_vel=(rng.uniform(-1, 1, 3)).tolist(), e_att=(rng.uniform(-1, 1, 3)).tolist(),
                 gb=(rng.uniform(-1, 1, 3) * 1e-4).tolist(), ab=(rng.uniform(-1, 1, 3) * 0.03).tolist(),
                 smat=(rng.uniform(-1, 1, (3, 3)) * 1e-3).tolist(), nseed=int(rng.integers(0, 2 ** 31)),
@@ -205,6 +210,12 @@ def ladder_run(cfg, s):
     # the ladder inside the 'error scale s' regime also when dense accurate fixes shrink the standard deviations to mm/s
     ST = 'increment'
     traj, imu = sim.generate_sine_velocity_motion(DT, cfg['T'], cfg['lla0'], cfg['vm'], cfg['va'], cfg['period'], sensor_type=ST)
+    if cfg.get('inverted'):
+        # IMU mounted upside down and rocking: roll swings through +-180 (attitude averaging / interpolation across the roll wrap)
+        tt_ = np.asarray(traj.index, float)
+        rph_ = traj[['roll', 'pitch', 'heading']].values.copy()
+        rph_[:, 0] = (180.0 + 8.0 * np.sin(0.9 * tt_ + 0.3) + 180.0) % 360.0 - 180.0
+        traj, imu = sim.generate_imu(tt_, traj[LLA].values, rph_, traj[VEL].values, sensor_type=ST)
     pos_sd, vel_sd, lev_sd, az_sd = 10 * s, 1 * s, 0.5 * s, 2 * s
     Tm = np.eye(3) + (np.array(cfg['smat']) * s if cfg['sm'] else 0)
     gp = inertial_sensor.Parameters(transform=Tm, bias=np.array(cfg['gb']) * s)
@@ -218,11 +229,22 @@ def ladder_run(cfg, s):
     for j, cls in enumerate(cfg['sensors']):
         every = (2.0 + j * 0.75) if not cfg.get('dense') else (0.3 + 0.2 * j)      # dense: fixes cut most covariance steps short
         e = np.arange(1.0 + 0.4 * j, t[-1] - 0.5, every)
-        e = t[np.searchsorted(t, e)]
-        if cfg['offgrid']:
+        base = t[np.searchsorted(t, e)]
+        e = base
+        off_j = DT * [0.37, 0.62, 0.18][j % 3]
+        if cfg['offgrid'] and not cfg.get('clustered'):
             e = e + DT * 0.37
-        if j > 0 and cfg.get('shared') and len(prev_e):
+        if cfg.get('clustered'):
+            # unsynchronised receivers: each sensor has its own offset inside the IMU interval, and this sensor also reports in every other
+            # interval the previous one reported in - two DISTINCT measurement epochs between the same two IMU samples
+            if j > 0 and len(prev_base):
+                base = np.unique(np.r_[base, prev_base[::2]])
+            e = base + off_j
+            prev_base = base
+        elif j > 0 and cfg.get('shared') and len(prev_e):
             e = np.unique(np.r_[e, prev_e[::2]])           # epochs shared with the previous sensor (one receiver, two observables)
+        if j == 0:
+            prev_base = base
         prev_e = e
         ref = transform.resample_state(traj, e)
         nn = nrm[k:k + len(e)]
@@ -284,6 +306,10 @@ def run_ladder(case, out, obs):
     obs['ladder_runs'] = len(res)
     obs['scale_misal_ladders'] = int(cfg['sm'])
     obs['two_d_ladders'] = int(not cfg['wa'])
+    obs['ladders_with_roll_through_180'] = int(bool(cfg.get('inverted')))
+    obs['ladders_with_two_epochs_in_one_imu_interval'] = int(bool(cfg.get('clustered')))
+    if cfg.get('clustered'):
+        obs['max_clustered_traj_d_s_10_x1000'] = 0
     if min(r['common'] for r in res) < 0.5 * res[0]['ff_rows']:
         return dict(config=cfg, inconclusive_grid='the two filters share fewer than half of their grid times')
     obs['ladders_decided'] = 1
@@ -292,6 +318,8 @@ def run_ladder(case, out, obs):
         dv = [r[key] for r in res]
         obs[f'max_{key}_d_s_x1000'] = int(1000 * dv[0])
         obs[f'max_{key}_d_s_10_x1000'] = int(1000 * dv[1])
+        if cfg.get('clustered'):
+            obs['max_clustered_traj_d_s_10_x1000'] = max(obs['max_clustered_traj_d_s_10_x1000'], int(1000 * dv[1]))
         for a_, b_, lab in ((dv[0], dv[1], 's -> s/10'),):
             if b_ > 0.25 * a_ + F_ALLOW:
                 out.append(vio('first_order_disagreement', f'{what}: feedback vs feedforward disagreement {a_:.3e} sd -> {b_:.3e} sd for {lab}: does not shrink '
